@@ -17,6 +17,14 @@ def cfg(name, **kw):
     return name, '\n'.join(lines) + '\n'
 
 
+REUSE_PROPS = {'reuse-values': ['C12'], 'reuse-torn': ['C12'], 'reuse-sub': ['C12'], 'reuse-closed': ['C12'], 'reuse-late': ['C12']}
+
+
+def run_reuse(rep, pid, thorough):
+    pp.run(rep, pid, [cfg('multi-two-reuse', MaxSteps=5 if thorough else 4, MaxPerSrc=3)], modes='multi-apply', module='MultiGen', replay_cmd='replay-multi',
+           class_props=REUSE_PROPS, prefix='multi.')
+
+
 def run(rep, pid, thorough):
     cfgs = [cfg('multi-two', MaxSteps=6 if thorough else 5, MaxPerSrc=3),
             cfg('multi-two-cuts', MaxSteps=5 if thorough else 4, MaxPerSrc=3, Cuts='TRUE'),
